@@ -399,7 +399,29 @@ class Expander:
         else:
             pos, rest = ("elem",), tuple(path)
         xb = self._x(base, fi, loop, bindings, depth + 1, seen)
+        # the i-th element of `[f(x) for x in S]` is f(the i-th element of S); its
+        # positions are the positions of S
+        fmap = []
+        guard_ = 0
+        while guard_ < 4:
+            guard_ += 1
+            inner = xb.args[0] if isinstance(xb, ast.Call) and isinstance(xb.func, ast.Name) and xb.func.id in ("list", "tuple") and len(xb.args) == 1 and not xb.keywords else xb
+            if isinstance(inner, (ast.ListComp, ast.GeneratorExp)) and len(inner.generators) == 1 and not inner.generators[0].ifs and not inner.generators[0].is_async:
+                fmap.append(inner)
+                xb = inner.generators[0].iter
+                continue
+            break
         k = self._loop_ordinal(fi, loop, xb)
+        if fmap:
+            term = ast.Call(func=ast.Name(id="__it__", ctx=ast.Load()), args=[xb, ast.Constant(str(pos)), ast.Constant(k)], keywords=[])
+            if pos == ("elem",):
+                for comp in reversed(fmap):
+                    m_: Dict[str, ast.AST] = {}
+                    _bind_comp_target(comp.generators[0].target, term, m_)
+                    term = _SubstNames(m_).visit(clone_ast(comp.elt))
+            for i_ in rest:
+                term = ast.Subscript(value=term, slice=ast.Constant(i_), ctx=ast.Load())
+            return term
         # components of an unpacked element are subscripts of the element: the same
         # term as `e[1]` after `for e in ...`
         term = ast.Call(func=ast.Name(id="__it__", ctx=ast.Load()), args=[xb, ast.Constant(str(pos)), ast.Constant(k)], keywords=[])
@@ -523,3 +545,21 @@ def _target_path(target, name) -> Tuple[int, ...]:
                 if sub or any(isinstance(x, ast.Name) and x.id == name for x in ast.walk(e)):
                     return (i,) + sub
     return ()
+
+
+def _bind_comp_target(t: ast.AST, v: ast.AST, m):
+    if isinstance(t, ast.Name):
+        m[t.id] = v
+    elif isinstance(t, (ast.Tuple, ast.List)):
+        for i, e in enumerate(t.elts):
+            _bind_comp_target(e, ast.Subscript(value=v, slice=ast.Constant(i), ctx=ast.Load()), m)
+
+
+class _SubstNames(ast.NodeTransformer):
+    def __init__(self, m):
+        self.m = m
+
+    def visit_Name(self, n):
+        if isinstance(n.ctx, ast.Load) and n.id in self.m:
+            return clone_ast(self.m[n.id])
+        return n
